@@ -147,7 +147,7 @@ CHECKS = {
               "maintenance operation and pairs (pack_loose_objects, repack, repack excluding unreachable, gc with grace 0/None/2 weeks, prune, pack_refs, write_midx, write_commit_graph; thorough also git repack -ad / git gc) under two "
               "clock settings: every object in the closure of all refs and HEAD stays readable with identical bytes on the live and on a reopened store; unreachable objects only disappear when older than the grace period. "
               "Reader (getitem / get_raw / membership / iteration, warm or cold) x repacker x layout explored at system-call granularity: no spurious miss."),
-        round2='Round 2: a multi-pack-index over two packs with a reader that knows the packs and the index without having opened a pack; the fix for the multi-pack-index removal race came out of it. Round 4: two handles on one repository - from every layout of <=3 builder operations a warm long-lived Repo, 3 (thorough 7) foreign maintenance operations by another handle, 5 (7) revive programs (re-add dropped objects, re-point a ref or HEAD) and 2 (6) maintenance operations through the stale handle, closure judged after every step through both handles.',
+        round2='Round 2: a multi-pack-index over two packs with a reader that knows the packs and the index without having opened a pack; the fix for the multi-pack-index removal race came out of it. Round 4: two handles on one repository - from every layout of <=3 builder operations a warm long-lived Repo, 3 (thorough 5) foreign maintenance operations by another handle, 5 (7) revive programs (re-add dropped objects, re-point a ref or HEAD) and 2 (6) maintenance operations through the stale handle, closure judged after every step through both handles.',
         note="Trusted: as C07/C08 for E1 (conflict-filtered reduction); the clock is shifted for the maintenance code; the builder's 'age' operation makes existing object files 20 days old; an object's age is that of its newest copy.",
     ),
     "C11": dict(
